@@ -71,6 +71,52 @@ type vfOpD struct {
 	pop    bool
 	// encapsulate-header / decapsulate-header enum numbers of a next-hop as on the wire (0 = unset; any int32)
 	encap, decap int32
+	// extended payload (nil: none): addresses, MAC, interface reference, IP-in-IP, pushed label stack of a
+	// next-hop; decapsulate-header of an IPv4/IPv6 entry; popped label stack of a label entry
+	x *vfPayloadX
+}
+
+// vfPayloadX: the extended payload fields, as on the wire.
+type vfPayloadX struct {
+	hasIP          bool
+	ip             string
+	hasMAC         bool
+	mac            string
+	hasIf          bool
+	ifname         string
+	hasSub         bool
+	sub            uint64
+	hasSrc, hasDst bool
+	src, dst       string
+	stack          []uint64 // pushed (next-hop) / popped (label entry) labels, in order
+	topDecap       int32    // IPv4 / IPv6 entry decapsulate-header (defined numbers only)
+}
+
+// invalid: the schema rejects the payload.
+func (x *vfPayloadX) invalid() bool {
+	if x == nil {
+		return false
+	}
+	bad := false
+	if x.hasIP {
+		bad = vfOr(bad, !vfValidIP(x.ip))
+	}
+	if x.hasMAC {
+		bad = vfOr(bad, !vfValidMAC(x.mac))
+	}
+	if x.hasSub {
+		bad = vfOr(bad, x.sub > 0xffffffff)
+	}
+	if x.hasSrc {
+		bad = vfOr(bad, !vfValidIP(x.src))
+	}
+	if x.hasDst {
+		bad = vfOr(bad, !vfValidIP(x.dst))
+	}
+	for _, l := range x.stack {
+		bad = vfOr(bad, !vfValidLabel(l))
+	}
+	return bad
 }
 
 func (d *vfOpD) proto() *spb.AFTOperation {
@@ -106,18 +152,29 @@ func (d *vfOpD) proto() *spb.AFTOperation {
 		k := &aftpb.Afts_Ipv4EntryKey{Prefix: d.pfx}
 		if d.hasBody {
 			k.Ipv4Entry = &aftpb.Afts_Ipv4Entry{NextHopGroup: u(d.hasNHG, d.nhg), NextHopGroupNetworkInstance: s(d.hasNHGNI, d.nhgNI), EntryMetadata: md()}
+			if d.x != nil {
+				k.Ipv4Entry.DecapsulateHeader = enums.OpenconfigAftTypesEncapsulationHeaderType(d.x.topDecap)
+			}
 		}
 		op.Entry = &spb.AFTOperation_Ipv4{Ipv4: k}
 	case vfKV6:
 		k := &aftpb.Afts_Ipv6EntryKey{Prefix: d.pfx}
 		if d.hasBody {
 			k.Ipv6Entry = &aftpb.Afts_Ipv6Entry{NextHopGroup: u(d.hasNHG, d.nhg), NextHopGroupNetworkInstance: s(d.hasNHGNI, d.nhgNI), EntryMetadata: md()}
+			if d.x != nil {
+				k.Ipv6Entry.DecapsulateHeader = enums.OpenconfigAftTypesEncapsulationHeaderType(d.x.topDecap)
+			}
 		}
 		op.Entry = &spb.AFTOperation_Ipv6{Ipv6: k}
 	case vfKMPLS:
 		k := &aftpb.Afts_LabelEntryKey{Label: &aftpb.Afts_LabelEntryKey_LabelUint64{LabelUint64: d.label}}
 		if d.hasBody {
 			k.LabelEntry = &aftpb.Afts_LabelEntry{NextHopGroup: u(d.hasNHG, d.nhg), NextHopGroupNetworkInstance: s(d.hasNHGNI, d.nhgNI), EntryMetadata: md()}
+			if d.x != nil {
+				for _, l := range d.x.stack {
+					k.LabelEntry.PoppedMplsLabelStack = append(k.LabelEntry.PoppedMplsLabelStack, &aftpb.Afts_LabelEntry_PoppedMplsLabelStackUnion{PoppedMplsLabelStackUint64: l})
+				}
+			}
 		}
 		op.Entry = &spb.AFTOperation_Mpls{Mpls: k}
 	case vfKNHG:
@@ -140,6 +197,19 @@ func (d *vfOpD) proto() *spb.AFTOperation {
 			}
 			k.NextHop.EncapsulateHeader = enums.OpenconfigAftTypesEncapsulationHeaderType(d.encap)
 			k.NextHop.DecapsulateHeader = enums.OpenconfigAftTypesEncapsulationHeaderType(d.decap)
+			if x := d.x; x != nil {
+				k.NextHop.IpAddress = s(x.hasIP, x.ip)
+				k.NextHop.MacAddress = s(x.hasMAC, x.mac)
+				if x.hasIf || x.hasSub {
+					k.NextHop.InterfaceRef = &aftpb.Afts_NextHop_InterfaceRef{Interface: s(x.hasIf, x.ifname), Subinterface: u(x.hasSub, x.sub)}
+				}
+				if x.hasSrc || x.hasDst {
+					k.NextHop.IpInIp = &aftpb.Afts_NextHop_IpInIp{SrcIp: s(x.hasSrc, x.src), DstIp: s(x.hasDst, x.dst)}
+				}
+				for _, l := range x.stack {
+					k.NextHop.PushedMplsLabelStack = append(k.NextHop.PushedMplsLabelStack, &aftpb.Afts_NextHop_PushedMplsLabelStackUnion{PushedMplsLabelStackUint64: l})
+				}
+			}
 		}
 		op.Entry = &spb.AFTOperation_NextHop{NextHop: k}
 	}
@@ -155,6 +225,7 @@ type vfRefTop struct {
 	nhgNI    string
 	hasMD    bool
 	md       uint8
+	x        *vfPayloadX
 }
 
 type vfRefNHG struct {
@@ -172,6 +243,7 @@ type vfRefNH struct {
 	pop    bool
 	encap  int32
 	decap  int32
+	x      *vfPayloadX
 }
 
 type vfRefNI struct {
@@ -233,6 +305,9 @@ func (r *vfRef) invalid(d *vfOpD) bool {
 		if d.label < 16 || d.label > 1048575 {
 			return true
 		}
+		if d.x.invalid() {
+			return true
+		}
 	case vfKNHG:
 		if d.idx == 0 || len(d.members) == 0 {
 			return true
@@ -245,7 +320,7 @@ func (r *vfRef) invalid(d *vfOpD) bool {
 		return false
 	case vfKNH:
 		// an enum number its type does not define is invalid content
-		return vfOr(d.idx == 0, vfOr(!vfEncapDefined(d.encap), !vfEncapDefined(d.decap)))
+		return vfOr(vfOr(d.idx == 0, d.x.invalid()), vfOr(!vfEncapDefined(d.encap), !vfEncapDefined(d.decap)))
 	}
 	// top-level entries
 	if !d.hasNHG || d.nhg == 0 {
@@ -330,7 +405,7 @@ func (r *vfRef) nhReferrers(ni string, x uint64) uint64 {
 }
 
 func (d *vfOpD) top() *vfRefTop {
-	return &vfRefTop{hasNHG: d.hasNHG, nhg: d.nhg, hasNHGNI: d.hasNHGNI, nhgNI: d.nhgNI, hasMD: d.hasMD, md: d.md}
+	return &vfRefTop{hasNHG: d.hasNHG, nhg: d.nhg, hasNHGNI: d.hasNHGNI, nhgNI: d.nhgNI, hasMD: d.hasMD, md: d.md, x: d.x}
 }
 
 // apply folds one acknowledged operation into the reference state.
@@ -368,7 +443,7 @@ func (r *vfRef) apply(d *vfOpD) {
 		}
 		n.nhg[d.idx] = g
 	case vfKNH:
-		n.nh[d.idx] = &vfRefNH{hasTag: d.hasTag, tag: d.tag, hasPop: d.hasPop, pop: d.pop, encap: d.encap, decap: d.decap}
+		n.nh[d.idx] = &vfRefNH{hasTag: d.hasTag, tag: d.tag, hasPop: d.hasPop, pop: d.pop, encap: d.encap, decap: d.decap, x: d.x}
 	}
 }
 
@@ -563,6 +638,7 @@ func (r *vfRef) compareP(real *RIB, p string, tablesOnly bool) {
 			}
 			vfAssert(e.Prefix != nil && *e.Prefix == k, p+"ipv4-key-consistent")
 			vfAssert(vfAnd(vfEqU64p(e.NextHopGroup, t.hasNHG, t.nhg), vfAnd(vfEqStrp(e.NextHopGroupNetworkInstance, t.hasNHGNI, t.nhgNI), vfEqMD(e.EntryMetadata, t.hasMD, t.md))), p+"ipv4-payload-equals-last-acked")
+			vfAssert(int64(e.DecapsulateHeader) == int64(t.decap()), p+"ipv4-decapsulate-header-equals-last-acked")
 		}
 		vfAssert(len(a.Ipv6Entry) == len(n.v6), p+"ipv6-table-size-equals-fold")
 		for k, t := range n.v6 {
@@ -573,6 +649,7 @@ func (r *vfRef) compareP(real *RIB, p string, tablesOnly bool) {
 			}
 			vfAssert(e.Prefix != nil && *e.Prefix == k, p+"ipv6-key-consistent")
 			vfAssert(vfAnd(vfEqU64p(e.NextHopGroup, t.hasNHG, t.nhg), vfAnd(vfEqStrp(e.NextHopGroupNetworkInstance, t.hasNHGNI, t.nhgNI), vfEqMD(e.EntryMetadata, t.hasMD, t.md))), p+"ipv6-payload-equals-last-acked")
+			vfAssert(int64(e.DecapsulateHeader) == int64(t.decap()), p+"ipv6-decapsulate-header-equals-last-acked")
 		}
 		vfAssert(len(a.LabelEntry) == len(n.mpls), p+"mpls-table-size-equals-fold")
 		for k, t := range n.mpls {
@@ -583,6 +660,7 @@ func (r *vfRef) compareP(real *RIB, p string, tablesOnly bool) {
 			}
 			vfAssert(e.Label == aft.UnionUint32(uint32(k)), p+"mpls-key-consistent")
 			vfAssert(vfAnd(vfEqU64p(e.NextHopGroup, t.hasNHG, t.nhg), vfAnd(vfEqStrp(e.NextHopGroupNetworkInstance, t.hasNHGNI, t.nhgNI), vfEqMD(e.EntryMetadata, t.hasMD, t.md))), p+"mpls-payload-equals-last-acked")
+			vfAssert(vfEqPopped(e.PoppedMplsLabelStack, t.stack()), p+"mpls-popped-label-stack-equals-last-acked")
 		}
 		vfAssert(len(a.NextHopGroup) == len(n.nhg), p+"nhg-table-size-equals-fold")
 		for k, g := range n.nhg {
@@ -617,6 +695,7 @@ func (r *vfRef) compareP(real *RIB, p string, tablesOnly bool) {
 				vfAssert(vfAnd(x.hasPop, *e.PopTopLabel == x.pop), p+"nh-pop-top-label-equals-last-acked")
 			}
 			vfAssert(vfAnd(int64(e.EncapsulateHeader) == int64(x.encap), int64(e.DecapsulateHeader) == int64(x.decap)), p+"nh-encapsulation-headers-equal-last-acked")
+			vfAssert(vfEqNHX(e, x.x), p+"nh-extended-payload-equals-last-acked")
 		}
 		if tablesOnly {
 			continue
@@ -660,4 +739,117 @@ func (r *vfRef) flush(nis []string) {
 		n.nhg = map[uint64]*vfRefNHG{}
 		n.nh = map[uint64]*vfRefNH{}
 	}
+}
+
+// ---- extended payload comparison (ygot structs of the tables / protos of Get) ----
+
+var vfNoX = &vfPayloadX{}
+
+func vfEqU32p(p *uint32, has bool, v uint64) bool {
+	if p == nil {
+		return !has
+	}
+	return vfAnd(has, uint64(*p) == v)
+}
+
+// vfEqNHX: the installed next-hop carries exactly the extended payload x.
+func vfEqNHX(e *aft.Afts_NextHop, x *vfPayloadX) bool {
+	if x == nil {
+		x = vfNoX
+	}
+	ok := vfAnd(vfEqStrp(e.IpAddress, x.hasIP, x.ip), vfEqStrp(e.MacAddress, x.hasMAC, x.mac))
+	if e.InterfaceRef == nil {
+		ok = vfAnd(ok, !x.hasIf && !x.hasSub)
+	} else {
+		ok = vfAnd(ok, vfAnd(vfEqStrp(e.InterfaceRef.Interface, x.hasIf, x.ifname), vfEqU32p(e.InterfaceRef.Subinterface, x.hasSub, x.sub)))
+	}
+	if e.IpInIp == nil {
+		ok = vfAnd(ok, !x.hasSrc && !x.hasDst)
+	} else {
+		ok = vfAnd(ok, vfAnd(vfEqStrp(e.IpInIp.SrcIp, x.hasSrc, x.src), vfEqStrp(e.IpInIp.DstIp, x.hasDst, x.dst)))
+	}
+	if len(e.PushedMplsLabelStack) != len(x.stack) {
+		return false
+	}
+	for i, l := range e.PushedMplsLabelStack {
+		u, isNum := l.(aft.UnionUint32)
+		if !isNum {
+			return false
+		}
+		ok = vfAnd(ok, uint64(u) == x.stack[i])
+	}
+	return ok
+}
+
+func vfEqSVp(p *wpb.StringValue, has bool, v string) bool {
+	if p == nil {
+		return !has
+	}
+	return vfAnd(has, p.Value == v)
+}
+
+func vfEqUVp(p *wpb.UintValue, has bool, v uint64) bool {
+	if p == nil {
+		return !has
+	}
+	return vfAnd(has, p.Value == v)
+}
+
+// vfEqNHXProto: the next-hop message returned by Get carries exactly the extended payload x.
+func vfEqNHXProto(b *aftpb.Afts_NextHop, x *vfPayloadX) bool {
+	if x == nil {
+		x = vfNoX
+	}
+	ok := vfAnd(vfEqSVp(b.GetIpAddress(), x.hasIP, x.ip), vfEqSVp(b.GetMacAddress(), x.hasMAC, x.mac))
+	ok = vfAnd(ok, vfAnd(vfEqSVp(b.GetInterfaceRef().GetInterface(), x.hasIf, x.ifname), vfEqUVp(b.GetInterfaceRef().GetSubinterface(), x.hasSub, x.sub)))
+	ok = vfAnd(ok, vfAnd(vfEqSVp(b.GetIpInIp().GetSrcIp(), x.hasSrc, x.src), vfEqSVp(b.GetIpInIp().GetDstIp(), x.hasDst, x.dst)))
+	if len(b.GetPushedMplsLabelStack()) != len(x.stack) {
+		return false
+	}
+	for i, l := range b.GetPushedMplsLabelStack() {
+		ok = vfAnd(ok, vfAnd(l.GetPushedMplsLabelStackUint64() == x.stack[i], l.GetPushedMplsLabelStackOpenconfigmplstypesmplslabelenum() == 0))
+	}
+	ok = vfAnd(ok, vfAnd(b.GetGre() == nil, vfAnd(len(b.GetEncapHeader()) == 0, vfAnd(b.GetTunnelSrcIpAddress() == nil, b.GetVniLabel() == nil))))
+	return ok
+}
+
+func (t *vfRefTop) decap() int32 {
+	if t.x == nil {
+		return 0
+	}
+	return t.x.topDecap
+}
+
+func (t *vfRefTop) stack() []uint64 {
+	if t.x == nil {
+		return nil
+	}
+	return t.x.stack
+}
+
+// vfEqPopped: the label entry's popped stack equals want, in order.
+func vfEqPopped(got []aft.Afts_LabelEntry_PoppedMplsLabelStack_Union, want []uint64) bool {
+	if len(got) != len(want) {
+		return false
+	}
+	ok := true
+	for i, l := range got {
+		u, isNum := l.(aft.UnionUint32)
+		if !isNum {
+			return false
+		}
+		ok = vfAnd(ok, uint64(u) == want[i])
+	}
+	return ok
+}
+
+func vfEqPoppedProto(got []*aftpb.Afts_LabelEntry_PoppedMplsLabelStackUnion, want []uint64) bool {
+	if len(got) != len(want) {
+		return false
+	}
+	ok := true
+	for i, l := range got {
+		ok = vfAnd(ok, vfAnd(l.GetPoppedMplsLabelStackUint64() == want[i], l.GetPoppedMplsLabelStackOpenconfigmplstypesmplslabelenum() == 0))
+	}
+	return ok
 }
